@@ -478,3 +478,66 @@ func classBarFill(P *Program, ob *Obligation) string {
 	}
 	return "other"
 }
+
+// --- (*Progress).Add$1: successors queued behind a bar (C17) --------------------------------
+
+func init() {
+	replayHarnesses = append(replayHarnesses,
+		replayHarness{match: prefixMatch("(*Progress).Add$1/ensures:live", "(*Progress).Add$1/ensures:nooverwrite"), pkgDir: ".", render: renderQueueAfter, class: classQueueAfter})
+}
+
+func classQueueAfter(P *Program, ob *Obligation) string {
+	if strings.HasSuffix(ob.Name, "ensures:live") {
+		return "predecessor-retired"
+	}
+	return "slot-occupied"
+}
+
+// The counterexample class decides the history: the predecessor's slot was already consulted
+// (it finished and was flushed before the successor was created), or the slot already holds
+// another successor. Oracle: every bar is eventually displayed and Wait returns.
+func renderQueueAfter(P *Program, ob *Obligation) (string, bool) {
+	scenario := "retired"
+	if strings.HasSuffix(ob.Name, "ensures:nooverwrite") {
+		scenario = "occupied"
+	}
+	src := fmt.Sprintf(`package mpb
+
+import (
+	"io"
+	"testing"
+	"time"
+)
+
+func TestGowpReplay(t *testing.T) {
+	scenario := %q
+	p := New(WithOutput(io.Discard), WithAutoRefresh(), WithRefreshRate(10*time.Millisecond))
+	a := p.AddBar(1)
+	var successors []*Bar
+	if scenario == "occupied" {
+		// two bars queued behind the same predecessor
+		successors = append(successors, p.AddBar(1, BarQueueAfter(a)), p.AddBar(1, BarQueueAfter(a)))
+		a.Increment()
+	} else {
+		// the predecessor has finished and its last frame has been flushed
+		a.Increment()
+		a.Wait()
+		time.Sleep(100 * time.Millisecond)
+		successors = append(successors, p.AddBar(1, BarQueueAfter(a)))
+	}
+	time.Sleep(100 * time.Millisecond)
+	for _, s := range successors {
+		s.Increment()
+	}
+	done := make(chan struct{})
+	go func() { p.Wait(); close(done) }()
+	select {
+	case <-done:
+		t.Logf("Wait returned (%%s)", scenario)
+	case <-time.After(5 * time.Second):
+		t.Fatalf("REPRODUCED: Wait did not return within 5s: a bar queued after another never got its turn (%%s)", scenario)
+	}
+}
+`, scenario)
+	return src, true
+}
